@@ -17,6 +17,7 @@ def sh(cmd, **kw):
 def main():
     only = None; prop = None; refac = None
     a = sys.argv[1:]
+    tier = ['--tier', a[a.index('--tier')+1]] if '--tier' in a else []
     if '--refactors' in a:
         i = a.index('--refactors')
         refac = set(a[i+1].split(',')) if i + 1 < len(a) and not a[i+1].startswith('--') else 'all' 
@@ -41,11 +42,11 @@ def main():
                     res.append(('refactor:' + nm, 'STALE', r0.stdout[-300:])); restore(); continue
                 # first check extracts, the others run in parallel on the cached facts
                 procs = []
-                first = subprocess.run([os.path.join(VERIF, 'bin', 'check'), allp[0], '--root', scratch], env=env,
+                first = subprocess.run([os.path.join(VERIF, 'bin', 'check'), allp[0], '--root', scratch] + tier, env=env,
                                        stdout=subprocess.PIPE, stderr=subprocess.STDOUT, text=True)
                 outs = {allp[0]: (first.returncode, first.stdout)}
                 for p in allp[1:]:
-                    procs.append((p, subprocess.Popen([os.path.join(VERIF, 'bin', 'check'), p, '--root', scratch], env=env,
+                    procs.append((p, subprocess.Popen([os.path.join(VERIF, 'bin', 'check'), p, '--root', scratch] + tier, env=env,
                                                       stdout=subprocess.PIPE, stderr=subprocess.STDOUT, text=True)))
                 for p, pr in procs:
                     o, _ = pr.communicate()
